@@ -538,12 +538,71 @@ var r3Exceptions = map[string]string{
 func c10r3(p *Prog, r *Reporter) {
 	// SometimesNil(f, i)
 	type key struct {
-		fn *ssa.Function
-		i  int
+		fn  *ssa.Function
+		i   int
+		fld int // -1: the i-th result itself; otherwise pointer field fld of the (single, struct-valued) result
 	}
 	some := map[key]bool{}
+	// retNil: the return hands out a literal nil for the key's component
+	retNil := func(ret *ssa.Return, k key) bool {
+		if k.i >= len(ret.Results) {
+			return false
+		}
+		x := ret.Results[k.i]
+		if k.fld < 0 {
+			return isNilConst(x)
+		}
+		if c, ok := x.(*ssa.Const); ok {
+			return c.Value == nil // the zero struct
+		}
+		if u, ok := x.(*ssa.UnOp); ok && u.Op == token.MUL {
+			if al, ok := u.X.(*ssa.Alloc); ok {
+				stores, nils := 0, 0
+				for _, ref := range *al.Referrers() {
+					fa, ok := ref.(*ssa.FieldAddr)
+					if !ok || fa.Field != k.fld {
+						continue
+					}
+					for _, r2 := range *fa.Referrers() {
+						if st, ok := r2.(*ssa.Store); ok && st.Addr == fa {
+							stores++
+							if isNilConst(st.Val) {
+								nils++
+							}
+						}
+					}
+				}
+				return stores == nils
+			}
+		}
+		return false
+	}
 	for _, fn := range p.Funcs {
 		res := fn.Signature.Results()
+		// a single struct-valued result with pointer fields: each pointer field is a component
+		if res.Len() == 1 && fn.Blocks != nil && p.isArche(fn) {
+			if st, ok := res.At(0).Type().Underlying().(*types.Struct); ok {
+				for j := 0; j < st.NumFields(); j++ {
+					if _, ok := st.Field(j).Type().Underlying().(*types.Pointer); !ok {
+						continue
+					}
+					k := key{fn, 0, j}
+					hasNil, hasNon := false, false
+					for _, b := range fn.Blocks {
+						if ret, ok := b.Instrs[len(b.Instrs)-1].(*ssa.Return); ok {
+							if retNil(ret, k) {
+								hasNil = true
+							} else {
+								hasNon = true
+							}
+						}
+					}
+					if hasNil && hasNon {
+						some[k] = true
+					}
+				}
+			}
+		}
 		for i := 0; i < res.Len(); i++ {
 			if _, ok := res.At(i).Type().Underlying().(*types.Pointer); !ok {
 				continue
@@ -567,7 +626,7 @@ func c10r3(p *Prog, r *Reporter) {
 						continue
 					}
 				}
-				some[key{fn, i}] = true
+				some[key{fn, i, -1}] = true
 			}
 		}
 	}
@@ -591,7 +650,15 @@ func c10r3(p *Prog, r *Reporter) {
 	for k := range some {
 		keys = append(keys, k)
 	}
-	sort.Slice(keys, func(i, j int) bool { return p.FuncName(keys[i].fn) < p.FuncName(keys[j].fn) })
+	sort.Slice(keys, func(i, j int) bool {
+		if a, b := p.FuncName(keys[i].fn), p.FuncName(keys[j].fn); a != b {
+			return a < b
+		}
+		if keys[i].i != keys[j].i {
+			return keys[i].i < keys[j].i
+		}
+		return keys[i].fld < keys[j].fld
+	})
 	for _, k := range keys {
 		for _, fn := range p.Funcs {
 			for _, site := range callsIn(fn) {
@@ -602,18 +669,30 @@ func c10r3(p *Prog, r *Reporter) {
 				if !ok {
 					continue
 				}
-				var v ssa.Value = call
-				if k.fn.Signature.Results().Len() > 1 {
-					v = nil
+				// the values through which this call's component is seen (one Extract, or one Field per selector)
+				var vs []ssa.Value
+				switch {
+				case k.fld >= 0:
 					for _, ref := range *call.Referrers() {
-						if ex, ok := ref.(*ssa.Extract); ok && ex.Index == k.i {
-							v = ex
+						if fx, ok := ref.(*ssa.Field); ok && fx.X == call && fx.Field == k.fld {
+							vs = append(vs, fx)
 						}
 					}
+				case k.fn.Signature.Results().Len() > 1:
+					for _, ref := range *call.Referrers() {
+						if ex, ok := ref.(*ssa.Extract); ok && ex.Index == k.i {
+							vs = append(vs, ex)
+						}
+					}
+				default:
+					vs = []ssa.Value{call}
 				}
 				name := p.FuncName(fn)
 				construct := "result of " + p.FuncName(k.fn)
-				if v == nil {
+				if k.fld >= 0 {
+					construct += " (pointer field " + fieldName(k.fn.Signature.Results().At(0).Type(), k.fld) + ")"
+				}
+				if len(vs) == 0 {
 					r.OKt(name, construct, p.Pos(call.Pos()), "the sometimes-nil result is not used")
 					continue
 				}
@@ -623,24 +702,35 @@ func c10r3(p *Prog, r *Reporter) {
 				}
 				// results that are nil together: a nil test of result i also guards result k.i if every
 				// return with a literal nil at k.i has a literal nil at i
-				guards := []ssa.Value{v}
-				if k.fn.Signature.Results().Len() > 1 {
+				guards := append([]ssa.Value{}, vs...)
+				nOwn := len(guards)
+				impliedBy := func(other key) bool {
+					for _, b := range k.fn.Blocks {
+						ret, ok := b.Instrs[len(b.Instrs)-1].(*ssa.Return)
+						if !ok {
+							continue
+						}
+						if retNil(ret, k) && !retNil(ret, other) {
+							return false
+						}
+					}
+					return true
+				}
+				if k.fld >= 0 {
+					for _, ref := range *call.Referrers() {
+						if fx, ok := ref.(*ssa.Field); ok && fx.X == call && fx.Field != k.fld {
+							if _, isP := fx.Type().Underlying().(*types.Pointer); isP && impliedBy(key{k.fn, 0, fx.Field}) {
+								guards = append(guards, fx)
+							}
+						}
+					}
+				} else if k.fn.Signature.Results().Len() > 1 {
 					for _, ref := range *call.Referrers() {
 						ex, ok := ref.(*ssa.Extract)
 						if !ok || ex.Index == k.i {
 							continue
 						}
-						implies := true
-						for _, b := range k.fn.Blocks {
-							ret, ok := b.Instrs[len(b.Instrs)-1].(*ssa.Return)
-							if !ok {
-								continue
-							}
-							if isNilConst(ret.Results[k.i]) && !isNilConst(ret.Results[ex.Index]) {
-								implies = false
-							}
-						}
-						if implies {
+						if impliedBy(key{k.fn, ex.Index, -1}) {
 							guards = append(guards, ex)
 						}
 					}
@@ -655,27 +745,32 @@ func c10r3(p *Prog, r *Reporter) {
 				}}
 				nn.Run()
 				bad := ""
-				for _, ref := range *v.Referrers() {
-					ins := ref
-					if nn.Before(ins) {
+				for _, v := range vs {
+					if v.Referrers() == nil {
 						continue
 					}
-					if derefs(ins, v) && !nilPathFeasible(fn, v, guards[1:], ins) {
-						continue // no path on which the result is nil reaches the dereference (branch conditions over nil comparisons enumerated)
-					}
-					if derefs(ins, v) {
-						bad = "dereferenced at " + p.Pos(posOf(ins)) + " without a nil test"
-						break
-					}
-					if s2, ok := ins.(ssa.CallInstruction); ok {
-						for ai, a := range s2.Common().Args {
-							if a != v {
-								continue
-							}
-							callees, _ := p.Callees(s2)
-							for _, cal := range callees {
-								if md, at := mustDeref(cal, ai); md {
-									bad = "passed to " + p.FuncName(cal) + ", which dereferences it at " + at + ", without a nil test"
+					for _, ref := range *v.Referrers() {
+						ins := ref
+						if nn.Before(ins) {
+							continue
+						}
+						if derefs(ins, v) && !nilPathFeasible(fn, v, guards[nOwn:], ins) {
+							continue // no path on which the result is nil reaches the dereference (branch conditions over nil comparisons enumerated)
+						}
+						if derefs(ins, v) {
+							bad = "dereferenced at " + p.Pos(posOf(ins)) + " without a nil test"
+							break
+						}
+						if s2, ok := ins.(ssa.CallInstruction); ok {
+							for ai, a := range s2.Common().Args {
+								if a != v {
+									continue
+								}
+								callees, _ := p.Callees(s2)
+								for _, cal := range callees {
+									if md, at := mustDeref(cal, ai); md {
+										bad = "passed to " + p.FuncName(cal) + ", which dereferences it at " + at + ", without a nil test"
+									}
 								}
 							}
 						}
